@@ -102,6 +102,9 @@ func probeIndent(out []byte, indent string, generic any) string {
 			if out[j] == '}' || out[j] == ']' {
 				d--
 			}
+			if d < 0 {
+				return fmt.Sprintf("line %d: closing bracket without an opening one", lines+1)
+			}
 			want := strings.Repeat(indent, d)
 			if got := string(out[i+1 : j]); got != want {
 				return fmt.Sprintf("line %d: leading white space %q, want %q (depth %d x indent %q)", lines+1, got, want, d, indent)
